@@ -44,6 +44,8 @@
 (*   bump(x,y)  = next()*1000 + x + y        (one closure call)            *)
 (*   bump2(x,y) = next()*1000 + next()       (two closure calls)           *)
 (*   ktag(x,y)  = tag(KT)*10 + tag(RC) + x   (reads tracked constants)     *)
+(*   wide(x,y)  = sum of the 40 fields x + i*y (i = 0..39) of a 320-byte    *)
+(*                record built by one helper and summed by another, + C    *)
 (*   keep(t,y)  = the one of t and mk(y+C) with the larger tag; x = tag(t) *)
 (***************************************************************************)
 EXTENDS Naturals, Sequences, FiniteSets, TLC
@@ -66,7 +68,7 @@ VARIABLES rts,       \* runtime g -> [obj, sync, cnt, ncl, seen, dupl]
           live       \* tracked instances alive (accounting variable)
 vars == <<rts, mods, holds, reglock, registry, pc, frame, ip, started, obs, created, live>>
 
-Shapes == {"arith", "slen", "lsum", "bump", "bump2", "ktag", "keep"}
+Shapes == {"arith", "slen", "lsum", "bump", "bump2", "ktag", "wide", "keep"}
 NCl(fn) == IF fn = "bump" THEN 1 ELSE IF fn = "bump2" THEN 2 ELSE 0
 RcTag(g) == 900 + g
 Max(a, b) == IF a >= b THEN a ELSE b
@@ -80,6 +82,7 @@ F(k, c, kt, g, fn, x, y, ps) ==
       [] fn = "bump"  -> ps[1] * 1000 + x + y
       [] fn = "bump2" -> ps[1] * 1000 + ps[2]
       [] fn = "ktag"  -> kt * 10 + RcTag(g) + x
+      [] fn = "wide"  -> 40 * x + 780 * y + c
       [] fn = "keep"  -> Max(x, y + c)
 
 IdleFrame == [m |-> 0, fn |-> "none", x |-> 0, y |-> 0, rd |-> FALSE, k |-> 0, c |-> 0,
